@@ -151,6 +151,8 @@ class SymPool:
         return max(1, c + (1 if extra else 0))
 
     def _run(self, fn, iterable, what, chunksize=1):
+        if self.closed:
+            raise ValueError('Pool not running')
         tasks = list(iterable)
         n = len(tasks)
         if chunksize > 1 and n > 1:
